@@ -156,8 +156,11 @@ def check(c, d):
     if d.get('both'):
         # libsbml keeps amount and concentration mutually exclusive through its API: patch the XML text
         sid, a, cval = d['both']
-        text = text.replace('id="%s" compartment="cell" initialAmount="%s"' % (sid, L.writeSBMLToString(doc) and ('%g' % a)),
-                            'id="%s" compartment="cell" initialAmount="%g" initialConcentration="%g"' % (sid, a, cval))
+        import re
+        text, npatched = re.subn(r'(<species id="%s"[^>]*?initialAmount="[^"]*")' % sid, r'\1 initialConcentration="%g"' % cval, text)
+        if npatched != 1:
+            c.harness_error('could not patch the species element of %s' % sid)
+            return
     open(path, 'w').write(text)
     key = 'C13/%s/' % d['tag'].split(':')[0]
     sub = d['tag'].split(':')[1] if ':' in d['tag'] else ''
